@@ -39,6 +39,10 @@ func vBoundedDuration(name string, lo, hi int64) time.Duration {
 	return d
 }
 
+// vDur: an arbitrary duration in [0, 2^20) (a narrow symbolic value keeps the time arithmetic cheap for the solver;
+// only the relative order of instants matters, not their magnitude).
+func vDur(name string) time.Duration { return vDurationN(name, 20) }
+
 func HarnessDeployGate() {
 	vT2(vParam("preemptions", 1), vParam("firings", 8))
 	vSortMode = 0
@@ -46,10 +50,11 @@ func HarnessDeployGate() {
 	P := vParam("probes", 2)
 	C := vParam("clients", 1)
 	router := NewRouter("/state")
-	interval := vBoundedDuration("interval", 1, 1<<32)
-	ptimeout := vBoundedDuration("probe_timeout", 0, 1<<32)
-	deployTimeout := vBoundedDuration("deploy_timeout", 0, 1<<32)
-	drainTimeout := vBoundedDuration("drain_timeout", 0, 1<<32)
+	interval := vDur("interval")
+	vAssume(interval > 0)
+	ptimeout := vDur("probe_timeout")
+	deployTimeout := vDur("deploy_timeout")
+	drainTimeout := vDur("drain_timeout")
 	topts := TargetOptions{HealthCheckConfig: HealthCheckConfig{Path: "/up", Interval: interval, Timeout: ptimeout}}
 	var oldSvc *Service
 	var oldLB *LoadBalancer
@@ -60,13 +65,11 @@ func HarnessDeployGate() {
 	for i := 0; i < N; i++ {
 		name := vNewTargetName(i)
 		names = append(names, name)
-		sc := &vProbeScript{}
+		sc := &vProbeScript{parkAfter: true}
 		for p := 0; p < P; p++ {
 			tag := "t" + vItoa(i) + "p" + vItoa(p)
-			o := vProbeOutcome{kind: vChoose(tag+"_kind", 2), latency: vBoundedDuration(tag+"_lat", 0, 1<<32)}
-			if o.kind == vProbeStatus {
-				o.status = vIntRange(tag+"_status", 100, 599)
-			}
+			// refused or an arbitrary status, decided lazily (only on paths where this probe is actually issued)
+			o := vProbeOutcome{kind: vProbeStatus, refused: vBool(tag + "_refused"), status: vIntRange(tag+"_status", 100, 599), latency: vDur(tag + "_lat")}
 			sc.outcomes = append(sc.outcomes, o)
 		}
 		vProbeScripts[name] = sc
@@ -75,10 +78,10 @@ func HarnessDeployGate() {
 	done := 0
 	for c := 0; c < C; c++ {
 		c := c
-		arrival := vBoundedDuration("arrival"+vItoa(c), 0, 1<<33)
+		arrival := vIntRange("arrival"+vItoa(c), 0, vParam("arrival_points", 8)) // placed lazily relative to the emitted events
 		vProxyPlans[c] = &vProxyPlan{service: 0}
 		go func() {
-			vSleep(arrival)
+			vArriveAfter(arrival)
 			vDoRequest(root, c, "h", "/")
 			done++
 		}()
@@ -86,6 +89,7 @@ func HarnessDeployGate() {
 	start := vNow()
 	err := router.DeployService("svc", names, ServiceOptions{Hosts: []string{"h"}}, topts, deployTimeout, drainTimeout)
 	vEmit(vEvent{kind: "cmd_return", ok: err == nil})
+	vCmdReturned = true
 	ret := vNow()
 	vBlockUntil(func() bool { return done == C })
 
